@@ -9,8 +9,10 @@ import Emerge.Base
                    forward++; retracted > 0 → retracted-- (wrap at 2n, no load)
                    else forward == n → load(n); forward == 2n → load(0), forward = 0
     Retract(size)  forward -= size (wrapping below 0 by +2n); retracted += size
-    Lexeme()       the bytes from lexemeBegin up to forward (wrapping at 2n); lexemeBegin = forward
-    Skip()         lexemeBegin = forward
+    pending        the bytes read since the start of the pending lexeme: next() appends the byte it returns,
+                   Retract(size) drops the last size bytes
+    Lexeme()       returns pending and clears it
+    Skip()         clears pending
 
   `src : Nat → Nat` with `len` is the source (bytes at absolute offsets). Core Lean only.
 -/
@@ -21,7 +23,7 @@ structure RState where
   fwd : Nat
   pend : Nat          -- `retracted`
   loaded : Nat        -- how much of the source the loads have consumed
-  lb : Nat            -- `lexemeBegin`
+  pending : List Nat  -- the bytes of the pending lexeme
 
 def load (src : Nat → Nat) (len n : Nat) (s : RState) (low : Nat) : RState :=
   let cnt := min n (len - s.loaded)
@@ -32,7 +34,8 @@ def load (src : Nat → Nat) (len n : Nat) (s : RState) (low : Nat) : RState :=
       else s.buf i,
     loaded := s.loaded + cnt }
 
-def next (src : Nat → Nat) (len n : Nat) (s : RState) : Option Nat × RState :=
+/-- `next()` without the bookkeeping of the pending lexeme -/
+def nextCore (src : Nat → Nat) (len n : Nat) (s : RState) : Option Nat × RState :=
   let b := s.buf s.fwd
   if b = 0 then (none, s)
   else
@@ -42,21 +45,23 @@ def next (src : Nat → Nat) (len n : Nat) (s : RState) : Option Nat × RState :
     else if f = 2 * n then (some b, { load src len n s 0 with fwd := 0 })
     else (some b, { s with fwd := f })
 
+/-- `next()`: the byte returned is appended to the pending lexeme (end of input changes nothing) -/
+def next (src : Nat → Nat) (len n : Nat) (s : RState) : Option Nat × RState :=
+  match nextCore src len n s with
+  | (some b, s') => (some b, { s' with pending := s.pending ++ [b] })
+  | (none, s') => (none, s')
+
 def retract (n : Nat) (s : RState) (size : Nat) : RState :=
-  { s with fwd := if size ≤ s.fwd then s.fwd - size else s.fwd + 2 * n - size, pend := s.pend + size }
+  { s with fwd := if size ≤ s.fwd then s.fwd - size else s.fwd + 2 * n - size, pend := s.pend + size,
+           pending := s.pending.take (s.pending.length - size) }
 
 /-- `newInput`: an empty buffer, then the first half is loaded -/
 def init (src : Nat → Nat) (len n : Nat) (buf0 : Nat → Nat) : RState :=
-  load src len n ⟨buf0, 0, 0, 0, 0⟩ 0
+  load src len n ⟨buf0, 0, 0, 0, []⟩ 0
 
-/-- the loop of `Lexeme`: at most `2n` cells lie between `lexemeBegin` and `forward` -/
-def collect (s : RState) (n : Nat) : Nat → Nat → List Nat
-  | 0, _ => []
-  | fuel + 1, i => if i = s.fwd then [] else s.buf i :: collect s n fuel (if i + 1 = 2 * n then 0 else i + 1)
+def lexeme (s : RState) : List Nat × RState := (s.pending, { s with pending := [] })
 
-def lexeme (n : Nat) (s : RState) : List Nat × RState := (collect s n (2 * n) s.lb, { s with lb := s.fwd })
-
-def skip (s : RState) : RState := { s with lb := s.fwd }
+def skip (s : RState) : RState := { s with pending := [] }
 
 /-! ### the plain stream the reader is meant to be, and runs of both -/
 
@@ -80,12 +85,11 @@ structure AState where
   kb : Nat
 
 /-- one call on the plain stream; `none` = the call is outside the reader's contract (a `Retract` must give back
-    bytes of the pending lexeme and keep at most one half outstanding; at a `Lexeme`, lexeme and look-ahead must
-    fit into one half) -/
+    bytes of the pending lexeme and keep at most one half outstanding) -/
 def aStep (src : Nat → Nat) (len n : Nat) (a : AState) : Op → Option (Out × AState)
   | .next => if a.k < len then some (.byte (src a.k), ⟨a.k + 1, a.p - 1, a.kb⟩) else some (.eof, a)
   | .retract size => if size + a.kb ≤ a.k ∧ a.p + size ≤ n then some (.unit, ⟨a.k - size, a.p + size, a.kb⟩) else none
-  | .lexeme => if a.k + a.p ≤ a.kb + n then some (.lex ((List.range (a.k - a.kb)).map fun i => src (a.kb + i)), ⟨a.k, a.p, a.k⟩) else none
+  | .lexeme => some (.lex ((List.range (a.k - a.kb)).map fun i => src (a.kb + i)), ⟨a.k, a.p, a.k⟩)
   | .skip => some (.unit, ⟨a.k, a.p, a.k⟩)
 
 def aRun (src : Nat → Nat) (len n : Nat) : AState → List Op → Option (List Out)
@@ -98,7 +102,7 @@ def aRun (src : Nat → Nat) (len n : Nat) : AState → List Op → Option (List
 def cStep (src : Nat → Nat) (len n : Nat) (s : RState) : Op → Out × RState
   | .next => (match (next src len n s).1 with | some b => .byte b | none => .eof, (next src len n s).2)
   | .retract size => (.unit, retract n s size)
-  | .lexeme => (.lex (lexeme n s).1, (lexeme n s).2)
+  | .lexeme => (.lex (lexeme s).1, (lexeme s).2)
   | .skip => (.unit, skip s)
 
 def cRun (src : Nat → Nat) (len n : Nat) : RState → List Op → List Out
